@@ -19,6 +19,8 @@ use std::rc::Rc;
 #[derive(Clone, Debug, Serialize, Deserialize)]
 pub struct HInstr {
     pub tag: u32,
+    /// index into ALL_PT of the primitive type of the value the extension returns in `reg`
+    pub ty: u8,
     pub reg: u64,
 }
 impl PartialEq for HInstr {
@@ -70,7 +72,7 @@ impl ExtendedExpression<HInstr> for HExt {
         let reg = block_state.borrow().last_register_number;
         block_state
             .borrow_mut()
-            .extended_expression(&HInstr { tag: self.tag, reg });
+            .extended_expression(&HInstr { tag: self.tag, ty: self.ty, reg });
         ExpressionResult {
             expr_type: Type::Primitive(sem_pt(ALL_PT[usize::from(self.ty)])),
             expr_value: ExpressionResultValue::Register(reg),
